@@ -461,4 +461,7 @@ def check(ctx, rep):
     from .c10 import rule_accumulate_all
 
     rule_accumulate_all(ctx, rep)
+    from .c09 import rule_no_shared_mutable_default
+
+    rule_no_shared_mutable_default(ctx, rep)
     rep.not_covered += ["sibling-file independence of arbitrary codemods", "thread-safety of libcst / functools.cache internals"]
